@@ -365,6 +365,42 @@ def explore_preds(chunk):
     return agg
 
 
+NUM_LITS = ["2", "-2", "2.5", "-2.5", "0", "-0.5", "-12", "-1_0",
+            "-0x1F", "-7.0"]
+
+
+def explore_literal_preds(chunk):
+    """a (signed) numeric literal directly in front of a predicate or word
+    operator behaves like the same value held in a variable"""
+    agg = core.Agg()
+    for x in chunk["values"]:
+        for p in PRED_FORMS:
+            for neg in ("", "not "):
+                lit = run_src(f"{x} is {neg}{p}")
+                var = run_src(f"def v = {x}; v is {neg}{p}")
+                agg.count("steps", 2)
+                agg.cls(("litpred", p, lit[0]))
+                if not (lit[0] == var[0] and H.same(var[1], lit[1])):
+                    agg.violation(
+                        {"part": "literal-predicate", "form": f"is {neg}{p}"},
+                        {"what": "litpred", "src": f"{x} is {neg}{p}",
+                         "via_variable": f"def v = {x}; v is {neg}{p}"},
+                        list(var), list(lit), size=len(x) + len(p))
+        for y in ("[-2.5, 2]", "<< -2, 2.5 >>", "'-2.5'", "[1]"):
+            for w in ("in", "not in", "is in", "is not in"):
+                lit = run_src(f"{x} {w} {y}")
+                var = run_src(f"def v = {x}; v {w} {y}")
+                agg.count("steps", 2)
+                if not (lit[0] == var[0] and H.same(var[1], lit[1])):
+                    agg.violation(
+                        {"part": "literal-predicate", "form": w},
+                        {"what": "litpred", "src": f"{x} {w} {y}",
+                         "via_variable": f"def v = {x}; v {w} {y}"},
+                        list(var), list(lit), size=len(x) + len(y))
+        agg.count("cases")
+    return agg
+
+
 def check_negation(agg, form, x, y, pos, neg):
     ok = False
     if pos[0] == "value" and neg[0] == "value":
@@ -428,6 +464,12 @@ def bool_shapes(nops):
 
 
 def replay(case, verbose=False):
+    if case.get("what") == "litpred":
+        lit = run_src(case["src"])
+        var = run_src(case["via_variable"])
+        if verbose:
+            print(case["src"], lit, case["via_variable"], var)
+        return not (lit[0] == var[0] and H.same(var[1], lit[1]))
     if case.get("what") == "negation":
         a = core.Agg()
         x, y, form = case["x"], case["y"], case["form"]
@@ -495,6 +537,8 @@ def main(tier, seed):
     agg.merge(core.pmap(explore_preds, [{"values": c} for c in
                                         core.chunked(PRED_POOL,
                                                      core.NPROC * 2)]))
+    agg.merge(core.pmap(explore_literal_preds, [{"values": [v]}
+                                                for v in NUM_LITS]))
     bshapes = []
     for n in range(1, 4 if tier == "quick" else 5):
         bshapes += bool_shapes(n)
@@ -512,7 +556,9 @@ def main(tier, seed):
               f"ints (|n| up to 2^100) x + - * / % plus int/decimal mixes; "
               f"{len(PRED_FORMS)} `is [not] P` forms and "
               f"{len(WORD_FORMS)} word-operator pairs x {len(PRED_POOL)} "
-              f"values; {len(bshapes)} and/or/not shapes x all leaf "
+              f"values; {len(NUM_LITS)} signed numeric literals directly "
+              f"before every predicate form vs the same value in a "
+              f"variable; {len(bshapes)} and/or/not shapes x all leaf "
               f"assignments with a log"),
         exhaustive=True,
         assumptions=["cases the statement leaves open (NULL with a "
